@@ -184,9 +184,10 @@ Theorem C06_refs_local_same_var_partial : forall P w f name line col v o,
 Proof. exact (refs_local_same_var MRefs). Qed.
 Print Assumptions C06_refs_local_same_var_partial.
 
-(* the statement aimed at: the layout guards discharged from Laid.  Missing: `Laid P -> classA_ok .. n -> tr_clean P n`
-   and `Laid P -> decl_layout_ok / decl_self_ok`, and C05 (the position resolver returns the declaration Lua binds the
-   cursor's occurrence to) *)
+(* the statement aimed at.  Proved below: tr_clean from Laid (C06_laid_position_clean, with the syntactic guard
+   no_funcstat instead of "no CB4 tag") and decl_self_ok for every chunk (Proofs/TraverseBindSpecDecls.v).
+   Missing: `Laid P -> decl_layout_ok`, no_funcstat weakened to the CB4 tag, and C05 (the position resolver returns
+   the declaration Lua binds the cursor's occurrence to) *)
 Definition C06_refs_local_full : Prop := forall P w f name line col v o,
   in_fragment P = true -> Laid P -> classA_ok (bind_file P) name = true ->
   resolve_at w f (analyse P) name line col = TLocal v -> s_bind o = BLocal (v_loc v) ->
@@ -203,4 +204,40 @@ Example C06_local_guards_nonvacuous :
                        | BGlobal _ => true
                        end) (bind_file P) = true /\
   length (filter (fun s => match s_bind s with BLocal _ => true | BGlobal _ => false end) (bind_file P)) = 25%nat.
+Proof. vm_compute. repeat split; reflexivity. Qed.
+
+(* ---- the replayed guard tr_clean discharged from the layout hypothesis of DESIGN 5 (Laid) ----
+   no_funcstat P n (boolean, syntactic): the chunk contains no statement `function n(...)`; on a local declared without a
+   value that statement is exactly class B4 (witness C06_B4_forward_decl_refuted), so this guard implies "no look-up of n
+   is hit by B4" but is stronger than "no occurrence of n is tagged CB4". *)
+From LH Require Import Proofs.TraverseBindLaidLoops Proofs.TraverseBindLaidMain Proofs.TraverseBindLaid.
+
+(* IsCorrectPosition's Loc test agrees with program order on every Laid chunk of the fragment *)
+Theorem C06_laid_position_clean : forall W P n,
+  in_fragment P = true -> tb_shape P = true -> laid_b W P = true -> no_funcstat P n = true ->
+  tr_clean P n = true.
+Proof. exact laid_tr_clean. Qed.
+Print Assumptions C06_laid_position_clean.
+
+Theorem C06_traversal_is_binder_laid : forall P W,
+  in_fragment P = true -> tb_shape P = true -> laid_b W P = true ->
+  exists os', Permutation (nd (bind_file P)) os' /\ Forall2 (occ_agrees_laid P) (fi_occs (analyse P)) os'.
+Proof. exact traverse_bind_core_laid. Qed.
+Print Assumptions C06_traversal_is_binder_laid.
+
+Theorem C06_refs_local_laid_partial : forall P W w f name line col v o,
+  in_fragment P = true -> tb_shape P = true -> laid_b W P = true -> no_funcstat P name = true ->
+  classA_ok (bind_file P) name = true ->
+  decl_layout_ok (bind_file P) name (v_loc v) = true ->
+  resolve_at w f (analyse P) name line col = TLocal v ->
+  In o (bind_file P) -> s_bind o = BLocal (v_loc v) ->
+  exists l, references_at MRefs w f (analyse P) name line col = Some l /\
+            forall x, In x l <-> In x (spec_refs [(f, bind_file P)] f o).
+Proof. exact (refs_local_same_var_laid_in MRefs). Qed.
+Print Assumptions C06_refs_local_laid_partial.
+
+Example C06_laid_guards_nonvacuous :
+  let P := chunk_of src_ok in
+  in_fragment P = true /\ tb_shape P = true /\ laid_b 1000%Z P = true /\
+  forallb (fun s => no_funcstat P (s_name s)) (bind_file P) = true.
 Proof. vm_compute. repeat split; reflexivity. Qed.
